@@ -7,7 +7,7 @@ from .base import BaseProp
 
 class Prop(BaseProp):
     id = "C11"
-    groups = ["HashConsts", "ShardLayout", "ChunkConsts", "GearTable", "DedupFacts", "ShardFacts", "ManagerFacts"]
+    groups = ["HashConsts", "ShardLayout", "ChunkConsts", "GearTable", "DedupFacts", "ShardFacts", "ManagerFacts", "UploadFacts"]
     prop_file = "Props/C11.v"
     trusted_base = [
         "real sessions (FileUploadSession, SingleFileCleaner, ShardFileManager, LocalClient, FileDownloader) are judged by an independent oracle in the harness "
@@ -75,6 +75,24 @@ class Prop(BaseProp):
             cases.append({"id": "flush%d" % i, "text": " | ".join(ops), "meta": {"cfg": "flush"}})
         env = dict(skip)
         env.update({"HF_XET_TARGET_CHUNK_SIZE": "1024", "HF_XET_MAX_XORB_BYTES": "16384", "HF_XET_MDB_SHARD_MIN_TARGET_SIZE": "1024"})
+        out.append({"name": "sess", "cases": cases, "env": env, "model": False, "timeout": 1200})
+        # histories with a session that did not complete: (a) abandoned after its mid-file xorbs reached the store, (b) its shard
+        # reached the store but the answer was lost; the retry (which meets xorbs / a shard the store already holds, the latter
+        # answered with "exists" as the remote service does) is finalized, and a third session uploads the same content again
+        cases = []
+        for i in range(3 if not big else 8):
+            nid = 9000 * (i + 1)
+            nf = rng.choice([1, 2, 3])
+            recs = ["%d:%d" % (nid + j, rng.randrange(40000, 90000)) for j in range(nf)]
+            kind = ["abandon", "lost", "both"][i % 3]
+            first = ["S - lost" if kind == "lost" else "S"] + ["f a%d %s %s" % (j, r, rng.choice(["all", "8192"])) for j, r in enumerate(recs)] + ["E" if kind == "lost" else "X"]
+            if kind == "both":
+                first += ["S - lost"] + ["f a%d %s all" % (j, r) for j, r in enumerate(recs)] + ["E"]
+            second = ["S - exists"] + ["f b%d %s %s" % (j, r, rng.choice(["all", "3000"])) for j, r in enumerate(recs)] + ["E"]
+            third = (["M"] if rng.random() < 0.3 else []) + ["S"] + ["f c%d %s %s" % (j, r, rng.choice(["all", "4096"])) for j, r in enumerate(recs)] + ["E", "D"]
+            cases.append({"id": "retry%d" % i, "text": " | ".join(first + second + third), "meta": {"cfg": "retry"}})
+        env = dict(skip)
+        env.update({"HF_XET_TARGET_CHUNK_SIZE": "1024", "HF_XET_MAX_XORB_BYTES": "16384"})
         out.append({"name": "sess", "cases": cases, "env": env, "model": False, "timeout": 1200})
         # the shard manager itself: scripts of register / add / flush / query against the model of its index
         out += mgrgen.streams(rng, tier)
